@@ -11,7 +11,17 @@ class TO(Exception): pass
 def alarm(*a): raise TO()
 signal.signal(signal.SIGALRM, alarm)
 out = []
+def disk_ops(ops):          # what happens to the disk BETWEEN two evaluations (paths relative to the working directory)
+    import shutil
+    for o in ops:
+        k, p = o["op"], o["path"]
+        if k == "rmtree": shutil.rmtree(p, ignore_errors=True)
+        elif k == "unlink": os.unlink(p)
+        elif k == "write": open(p, "w", encoding="utf-8").write(o["text"])
+        elif k == "symlink": os.symlink(o["to"], p)
+        elif k == "mkdir": os.makedirs(p, exist_ok=True)
 for c in job["cases"]:
+    disk_ops(c.get("disk", []))
     old = sys.stdin, sys.stdout; sys.stdin = io.StringIO(c.get("stdin", "")); sys.stdout = buf = io.StringIO()
     signal.setitimer(signal.ITIMER_REAL, 5.0)
     try:
